@@ -536,6 +536,9 @@ def stepProvCore (d : ProvDrv) (a : Acc) (s : Step) : ProvDrv × Acc :=
       let a := a.spec s.lineNo "C08.double-sign-noop" (Spec.Slash.doubleSignNoop dl)
       let a := a.spec s.lineNo "C08.ack-cases" (Spec.Slash.ackCases dl)
       let a := a.spec s.lineNo "C09.meter-rule" (Spec.Slash.meterRule dl)
+      -- C12: an id the provider never issued (not 0, not in the id -> height map) gets an error ack
+      let issued := p.vscId == 0 || (parsePairs (before.g.get "vsc2h")).any (·.1 == p.vscId)
+      let a := a.spec s.lineNo "C12.unknown-id-error" (issued || ack == "error") s!"vsc={p.vscId} ack={ack}"
       ({ impl := after }, compareState a s.lineNo r.1 after lifecycleFields lifecycleGlobals)
   | "dvote" =>
     let c := s.op.get "c"
@@ -702,6 +705,18 @@ def epochSpecs (a : Acc) (lineNo : Nat) (op : Line) (b t : State) (after : ProvI
     let xb := b.get e.1
     let computed := (isEpoch && xb.phase == .launched && xb.client.isSome) ||
                     (op.name == "begin" && x.phase == .launched && xb.phase != .launched)
+    -- C08: slash acknowledgements waiting for a consumer leave the store only inside a packet
+    -- created for that consumer in this block (never dropped)
+    let a := if op.name == "end" && x.phase == xb.phase then
+        let sentAll : List Packet := (splitNE sentRaw ";").filterMap fun t =>
+          match t.splitOn "/" with
+          | [ch, _, id, u, ak] =>
+            if some ch == x.channel then some { id := nat0 id, updates := parseUpd u "+", acks := (splitNE ak "+").map nat0 } else none
+          | _ => none
+        let fresh := (sentAll ++ x.pend).filter fun p => !(xb.pend.any (·.id == p.id))
+        a.spec lineNo "C08.acks-conserved" (xb.acks == fresh.flatMap (·.acks) ++ x.acks)
+          s!"consumer={e.1} acks-before={xb.acks} acks-after={x.acks} carried={fresh.flatMap (·.acks)}"
+      else a
     if !computed then a
     else
       let w := viewOf b e.2 x
@@ -779,6 +794,10 @@ def stepProv (d : ProvDrv) (a : Acc) (s : Step) : ProvDrv × Acc :=
     let b := before.toState
     let t := r.1.impl.toState
     let a := provInvariants r.2 s.lineNo s.op ok b t
+    -- C18: replicas of this block hook on throw-away branches of the same state agreed byte for byte
+    -- (return value, every key/value of the provider store, packets, calls to the environment)
+    let rep := (s.ob "r").get "rep"
+    let a := if rep != "" then (a.tag "replicas-compared").spec s.lineNo "C18.replicas-agree" (rep == "same") rep else a
     let a := if ok && !d.armed then epochSpecs a s.lineNo s.op b t r.1.impl ((s.ob "r").get "sent") else a
     -- C11: removal happens one unbonding period after the FIRST stop
     let firstDue := t.consumers.foldl (fun (fd : List (String × Int)) x =>
